@@ -243,4 +243,11 @@ def obligations(tier):
         for o1 in firsts:
             for o2 in seconds:
                 obs.append(WF(sn, o1, o2))
+    # IOAPI constructor: the time-step dimension of a constructed file and of
+    # a window of it is unlimited (obligations of checks/c10.py)
+    from . import c10
+    for wt in (False, True):
+        o = c10.Construct(2004, wt)
+        o.name = 'wf-ioapi-' + o.name
+        obs.append(o)
     return obs
